@@ -147,9 +147,31 @@ def handleTree (j : Json) : Option Json := do
       | some v, some lam =>
         [("prox", if runnable bases t then jExcept jArg (prox E t v lam) else Json.null),
          ("conj", if runnable bases t then jExcept jArg (conjProx E t v lam) else Json.null),
-         ("plan", jExcept (fun l => jArr (l.map jCall)) (plan E t v lam none none))]
+         ("plan", jExcept (fun l => jArr (l.map jCall)) (plan E t v lam none none)),
+         -- receivers of the keyword arguments of a prox call (leaf ids / operator ids of CG-branch SquaredL2Loss nodes)
+         ("kwplan", jArr ((kwPlan E t ()).map (fun c => match c.1 with
+            | .inl i => jObj [("leaf", jN i)]
+            | .inr i => jObj [("sql2op", jN i)])))]
       | _, _ => []
     some (ok (jObj (flags ++ ev ++ pr)))
+
+/-- `SeparableFunctional([..])` applied to a plain array of the given shape -/
+def handleSepPlain (j : Json) : Option Json := do
+  let cplx ← fBool? j "cplx"
+  let bases ← (← fList? j "leaves").mapM getBase?
+  let ops ← getMats? j "ops"
+  let E := mkEnv finf cplx bases ops
+  let fsj ← fList? j "fs"
+  let fsE ← fsj.mapM getFn?
+  match fsE.mapM id with
+  | .error e => some (err e.kind)
+  | .ok fs =>
+    let shape ← fNats? j "shape"
+    let x ← fFloats? j "x"
+    let lam ← fFloat? j "lam"
+    let run := fs.all (runnable bases)
+    some (ok (jObj [("eval", jExcept jF (evalSepPlain E fs shape x)),
+                    ("prox", if run then jExcept jArg (proxSepPlain E fs shape x lam) else Json.null)]))
 
 def jExt : Ext F → Json
   | .fin a => jF a
@@ -232,6 +254,7 @@ def handler : Handler := fun op j =>
   match op with
   | "tree" => handleTree j
   | "feval" => handleFeval j
+  | "sepplain" => handleSepPlain j
   | "metric" => handleMetric j
   | "sql2diag" => do
     let cplx ← fBool? j "cplx"
@@ -246,6 +269,24 @@ def handler : Handler := fun op j =>
       | "linear" => some .linear | "nonlinear" => some .nonlinear | _ => none
     let fl := lossClsFlags c A (← fBool? j "ynonneg")
     some (ok (jObj [("he", jB fl.1), ("hp", jB fl.2)]))
+  | "sql2w" => do
+    -- SquaredL2Loss(y, A=Identity, W) on a plain real/complex array with a weight diagonal of any length
+    let cplx ← fBool? j "cplx"
+    let E := mkEnv finf cplx [] []
+    let y ← fFloats? j "y"
+    let x ← fFloats? j "x"
+    let s ← fFloat? j "scale"
+    let lam ← fFloat? j "lam"
+    match wNormalize (← optFloats? j "w") (nEntries cplx y) with
+    | .error e => some (err e.kind)
+    | .ok w =>
+      some (ok (jObj [("eval", jExcept jF (eval E (.sqL2 (.arr y) .ident w s) (.arr x))),
+                      ("prox", jExcept jArg (prox E (.sqL2 (.arr y) .ident w s) (.arr x) lam))]))
+  | "scalekind" => do
+    let k ← match ← fStr? j "kind" with
+      | "pos" => some ScaleKind.posReal | "nonpos" => some .nonposReal | "complex" => some .complex
+      | "traced" => some .tracedReal | "tracedcomplex" => some .tracedComplex | _ => none
+    some (ok (jB (scaledHasProxOf (← fBool? j "inner") k)))
   | "sql2res" => do
     some (ok (jFs (sqL2Residual (← fFloat? j "scale") (← fFloat? j "lam") (← fFloatss? j "A") (← fNat? j "ncols")
       (← fFloats? j "w") (← fFloats? j "y") (← fFloats? j "v") (← fFloats? j "x"))))
